@@ -300,6 +300,68 @@ def late_field_stream(ctx, res):
                     res.violate("C10:non-sensitive-altered", "a non-sensitive position differs from the unmasked rendering", dict(case, masked=other_t, plain=other_p))
 
 
+def shapes_stream(ctx, res):
+    """shapes of held values the generators above do not produce: a dict of lists of configurations whose keys collide as text (7 and
+    "7"), a list of configurations that is still the TUPLE its default was declared as (never assigned), lists of dicts of lists of
+    configurations, dicts of dicts of lists; under every mask no sensitive value of any of these configurations appears, in the tree
+    and in every document the format can write"""
+    import cincoconfig as cc
+    tok = cc.Schema()
+    tok.user = cc.StringField(default="u")
+    tok.pin = cc.StringField(sensitive=True)
+    tok.token = cc.SecureField(method="xor")
+    T = cc.make_type(tok, "ShapeTok")
+
+    def mk(cls, n):
+        c = cls()
+        c.user = "user%d" % n
+        c.pin = "PIN-%04d-secret" % n
+        c.token = "TOKEN-%04d-secret" % n
+        return c
+    for typed in (False, True):
+        cls = T if typed else tok
+        s = cc.Schema()
+        s.tenants = cc.DictField(None, cc.ListField(cls), default=dict)
+        s.builtin = cc.ListField(cls, default=(mk(cls, 1), mk(cls, 2)))
+        s.stages = cc.ListField(cc.DictField(cc.StringField(), cc.ListField(cls)), default=lambda: [])
+        s.zones = cc.DictField(cc.StringField(), cc.DictField(cc.StringField(), cc.ListField(cls)), default=dict)
+        s.sub.builtin = cc.ListField(cls, default=(mk(cls, 3),))
+        cfg = s()
+        try:
+            cfg.tenants = {7: [mk(cls, 4)], "7": [mk(cls, 5)], "other": [mk(cls, 6)]}
+            cfg.stages = [{"web": [mk(cls, 7)], "db": [mk(cls, 8)]}, {"web": [mk(cls, 9)]}]
+            cfg.zones = {"eu": {"a": [mk(cls, 10)]}, "us": {"b": [mk(cls, 11), mk(cls, 12)]}}
+        except Exception as e:  # noqa
+            res.case(None, kind="shapes:setup-%s" % type(e).__name__)
+            continue
+        secrets = ["PIN-%04d-secret" % n for n in range(1, 13)] + ["TOKEN-%04d-secret" % n for n in range(1, 13)]
+        for mask in ("*", "<hidden>", ""):
+            case = {"stream": "shapes", "config_type": typed, "mask": mask}
+            res.case(stable(case), kind="shapes")
+            try:
+                tree = cfg.to_tree(sensitive_mask=mask)
+            except Exception as e:  # noqa
+                res.hist["shapes:to_tree-raised:%s" % type(e).__name__] += 1
+                continue
+            text = repr(tree)
+            leaked = [x for x in secrets if x in text]
+            cipher = '"ciphertext"' in json.dumps(tree, default=str) or "'ciphertext'" in text
+            if leaked or cipher:
+                res.violate("C10:leak-in-tree", "a sensitive value (or its ciphertext instead of the mask) of a configuration held below containers appears in the masked tree",
+                            dict(case, leaked=leaked[:4], ciphertext_instead_of_mask=cipher))
+                continue
+            for fmt in ("json", "yaml", "pickle", "xml", "bson"):
+                try:
+                    doc = cfg.dumps(format=fmt, sensitive_mask=mask)
+                except Exception:  # noqa  (a format that cannot write this tree — e.g. non-string keys — shows nothing)
+                    res.hist["shapes:dumps-raised:" + fmt] += 1
+                    continue
+                leaked = [x for x in secrets if x.encode() in doc]
+                if leaked:
+                    res.violate("C10:leak-in-document", "a sensitive value appears in a masked document", dict(case, fmt=fmt, leaked=leaked[:4]))
+                    break
+
+
 def nested_stream(ctx, res, n):
     """the walk that renders configurations held below nested containers (Config._render_nested) against the model's renderNested
     (Cinco/Config/Nested.lean, theorems in Props/C10b.lean): random nestings of lists, tuples and dicts holding real configurations
@@ -376,6 +438,7 @@ def run(ctx, n_quick=150, n_thorough=5000):
     guard(res, "C10", marker_stream, ctx, res, ctx.n(8, 200))
     guard(res, "C10", nested_stream, ctx, res, ctx.n(300, 8000))
     guard(res, "C10", late_field_stream, ctx, res)
+    guard(res, "C10", shapes_stream, ctx, res)
     return res
 
 
